@@ -84,7 +84,7 @@ def make_spec(st, idx, tier):
         if chance(rng, 0.5):
             w2.pop(sorted(w2)[0])
         else:
-            w2["ZZ"] = 3
+            w2["QQ"] = 3
         seq.append(dict(k="poll", role="wrong_size", fresh_client=True, national_summary=dict(ns, weights=w2)))
     for i, o in enumerate(seq):
         o["t"] = round(cut + 0.001 * (i + 1), 4)
